@@ -20,35 +20,45 @@ def T(*names):
 
 PROPS = {
  'C12': dict(
-    tasks=T('mirvc:specs_tower', 'search:specs_tower'),
+    tasks=T('mirvc:specs_tower', 'search:specs_tower', 'mirvc:specs_lib', 'lsearch:all'),
     trusted_base=[A['A2'], A['A7'], A['A9'], A['L2']],
     assumptions=[A['A2'], A['A6'], A['A7'], A['A9']],
     explanation='every function of fields/fq2.rs verified against Fq[u]/(u^2+2) from its rustc MIR with callees replaced by contracts'),
  'C17': dict(
-    tasks=T('mirvc:specs_tower', 'search:specs_tower', 'mirvc:specs_fexp', 'search:specs_fexp'),
+    tasks=T('mirvc:specs_tower', 'search:specs_tower', 'mirvc:specs_fexp', 'search:specs_fexp', 'mirvc:specs_lib'),
     trusted_base=[A['A2'], A['A7'], A['A9'], A['L2']],
     assumptions=[A['A2'], A['A6'], A['A7'], A['A9']],
     explanation='every function of fq4.rs / fq12.rs verified against F_q[w]/(w^12+2) on arbitrary elements; Frobenius maps against x^(q^k) with constants recomputed exactly; both final exponentiations by exponent contracts: result = x^e with e = (q^12-1)/r mod q^12-1'),
  'C11': dict(
-    tasks=T('mirvc:specs_tower', 'search:specs_tower'),
+    tasks=T('mirvc:specs_tower', 'search:specs_tower', 'mirvc:specs_lib', 'lsearch:all'),
     trusted_base=[A['A2'], A['A7'], A['A9'], A['L2']],
     assumptions=[A['A2'], A['A6'], A['A7'], A['A9']],
     explanation='Gt operations are Fq12 operations'),
  'C04': dict(
-    tasks=T('mirvc:specs_groups', 'gsearch:all'),
+    tasks=T('mirvc:specs_groups', 'mirvc:specs_lib', 'gsearch:all'),
     trusted_base=[A['A2'], A['A3'], A['A4'], A['A7'], A['A9'], 'hand-over: Base-field ring contracts (C06/C12)'],
     assumptions=[A['A3'], A['A4'], A['A6'], A['A7']],
     explanation='double, every branch of Add (4 representation combinations x generic/equal/opposite/identity), Neg, Sub, AddAssign verified generically over P::Base from rustc MIR against the affine chord-and-tangent law; valid_rep(out) proved as ideal membership modulo the curve equations'),
  'C15': dict(
-    tasks=T('mirvc:specs_groups', 'gsearch:all'),
+    tasks=T('mirvc:specs_groups', 'mirvc:specs_lib', 'gsearch:all'),
     trusted_base=[A['A2'], A['A4'], A['A7'], A['A9']],
     assumptions=[A['A4'], A['A6'], A['A7']],
     explanation='==, is_zero, to_affine, to_jacobian, zero verified over the affine view for identity / z=1 / general representatives and all relations'),
  'C09': dict(
-    tasks=T('mirvc:specs_groups', 'gsearch:all'),
+    tasks=T('mirvc:specs_groups', 'mirvc:specs_lib', 'gsearch:all'),
     trusted_base=[A['A3'], A['A4'], A['A7'], A['A9']],
     assumptions=[A['A3'], A['A4'], A['A7']],
     explanation='AffineG::new: Ok iff y^2 = x^3 + b and (check_order => [r-1]P + P = O), for both values of check_order'),
+ 'C06': dict(
+    tasks=T('mirvc:specs_lib', 'lsearch:all'),
+    trusted_base=[A['A1'], A['A6'], A['A7']],
+    assumptions=[A['A1'], A['A6'], A['A7']],
+    explanation='(under construction) limb-level contracts'),
+ 'C13': dict(
+    tasks=T('lsearch:all'),
+    trusted_base=[A['A6'], A['A7'], A['A9']],
+    assumptions=[A['A6'], A['A7'], A['A9']],
+    explanation='(under construction) conversion contracts'),
 }
 
 HOOK_COMMITS = ['8aeb3f0']
